@@ -110,35 +110,39 @@ func (r *RibEntry) pruneIfEmpty() {
 }
 
 func (r *RibEntry) updateNexthopsEnc() {
-	FibStrategyTable.ClearNextHopsEnc(r.Name)
+	// A node that was only created as a path filler has no name and owns no
+	// FIB entry (a nil name would address the root entry of the FIB).
+	if r.Name != nil {
+		FibStrategyTable.ClearNextHopsEnc(r.Name)
 
-	// All routes including parents if needed
-	routes := append([]*Route{}, r.routes...)
+		// All routes including parents if needed
+		routes := append([]*Route{}, r.routes...)
 
-	// Get all possible nexthops for parents that are inherited,
-	// unless we have the capture flag set
-	if !r.HasCaptureRoute() {
-		for entry := r; entry != nil; entry = entry.parent {
-			for _, route := range entry.routes {
-				if route.HasChildInheritFlag() {
-					routes = append(routes, route)
+		// Get all possible nexthops for parents that are inherited,
+		// unless we have the capture flag set
+		if !r.HasCaptureRoute() {
+			for entry := r; entry != nil; entry = entry.parent {
+				for _, route := range entry.routes {
+					if route.HasChildInheritFlag() {
+						routes = append(routes, route)
+					}
 				}
 			}
 		}
-	}
 
-	// Find minimum cost route per nexthop
-	minCostRoutes := make(map[uint64]uint64) // FaceID -> Cost
-	for _, route := range routes {
-		cost, ok := minCostRoutes[route.FaceID]
-		if !ok || route.Cost < cost {
-			minCostRoutes[route.FaceID] = route.Cost
+		// Find minimum cost route per nexthop
+		minCostRoutes := make(map[uint64]uint64) // FaceID -> Cost
+		for _, route := range routes {
+			cost, ok := minCostRoutes[route.FaceID]
+			if !ok || route.Cost < cost {
+				minCostRoutes[route.FaceID] = route.Cost
+			}
 		}
-	}
 
-	// Add "flattened" set of nexthops
-	for nexthop, cost := range minCostRoutes {
-		FibStrategyTable.InsertNextHopEnc(r.Name, nexthop, cost)
+		// Add "flattened" set of nexthops
+		for nexthop, cost := range minCostRoutes {
+			FibStrategyTable.InsertNextHopEnc(r.Name, nexthop, cost)
+		}
 	}
 
 	// Trigger update for all children for inheritance
